@@ -50,6 +50,9 @@ type scOp struct {
 	Keep    int    // samples kept by metric relabeling
 	Drop    int    // samples dropped by metric relabeling
 	Stopped bool
+	// During (update only): a scrape through the proxy that is in flight - parked at the target - while this update
+	// arrives, and completes afterwards
+	During *scOp `json:",omitempty"`
 }
 type scCase struct {
 	Prom int64
@@ -76,6 +79,9 @@ type scObs struct {
 type scriptedRT struct {
 	result     string
 	keep, drop int
+	// gate: when set, the request is parked at the "target" until the channel is closed; reached is signalled first
+	gate    chan struct{}
+	reached chan struct{}
 }
 
 type errAfterReader struct {
@@ -106,6 +112,10 @@ func payload(keep, drop int) []byte {
 }
 
 func (s *scriptedRT) RoundTrip(req *http.Request) (*http.Response, error) {
+	if s.gate != nil {
+		s.reached <- struct{}{}
+		<-s.gate
+	}
 	switch s.result {
 	case "connfail":
 		return nil, fmt.Errorf("scripted connection failure")
@@ -344,12 +354,51 @@ func sidecarRun(in interface{}) (string, interface{}, map[string]int) {
 	st := map[string]int{"ops": len(c.Ops)}
 	var ops, obs []string
 	obs = append(obs, scObsTerm(seen[0]))
-	for _, op := range c.Ops {
-		ok := w.apply(op)
-		o := w.observe(ok)
+	emit := func(op scOp, o scObs) {
 		seen = append(seen, o)
 		ops = append(ops, scOpTerm(op))
 		obs = append(obs, scObsTerm(o))
+	}
+	for _, op := range c.Ops {
+		if op.Kind == "update" && op.During != nil {
+			// the scrape started before the update and completes after it. What it records goes to the status object it
+			// found when it started: for a target assigned then, that is "update; scrape" (the object survives the update
+			// unless the target leaves); for a target not assigned then nothing is recorded: "scrape; update"
+			sc := *op.During
+			upd := op
+			upd.During = nil
+			_, assignedBefore := w.tm.TargetsInfo().Status[sc.Hash]
+			w.rt.gate, w.rt.reached = make(chan struct{}), make(chan struct{}, 1)
+			done := make(chan struct{})
+			go func() { defer close(done); w.apply(sc) }()
+			select {
+			case <-w.rt.reached:
+			case <-done:
+			}
+			if !assignedBefore {
+				emit(sc, w.observe(true))
+			}
+			ok := w.apply(upd)
+			o := w.observe(ok)
+			if assignedBefore {
+				emit(upd, o)
+			}
+			close(w.rt.gate)
+			<-done
+			w.rt.gate = nil
+			if assignedBefore {
+				emit(sc, w.observe(true))
+			} else {
+				emit(upd, w.observe(ok))
+			}
+			st["op_update"]++
+			st["op_scrape"]++
+			st["overlapped_scrapes"]++
+			continue
+		}
+		ok := w.apply(op)
+		o := w.observe(ok)
+		emit(op, o)
 		st["op_"+op.Kind]++
 		if op.Kind == "scrape" {
 			st["scrape_"+op.Result]++
@@ -425,6 +474,19 @@ func sidecarGen(r *rand.Rand, idx int, thorough bool) interface{} {
 				if len(ts) > 0 || r.Intn(3) == 0 {
 					op.Req = append(op.Req, scJob{Job: j, Targets: ts})
 				}
+			}
+			if r.Intn(5) == 0 { // a scrape in flight while the update arrives
+				h := uint64(1 + r.Intn(6))
+				if len(cur) > 0 && r.Intn(6) != 0 {
+					keys := make([]uint64, 0, len(cur))
+					for k := range cur {
+						keys = append(keys, k)
+					}
+					sort.Slice(keys, func(a, b int) bool { return keys[a] < keys[b] })
+					h = keys[r.Intn(len(keys))]
+				}
+				res := []string{"ok", "ok", "ok", "connfail", "status500", "midbody"}[r.Intn(6)]
+				op.During = &scOp{Kind: "scrape", Now: now, Hash: h, Job: curJob[h], Result: res, Keep: []int{0, 1, 3, 10, 60}[r.Intn(5)], Drop: r.Intn(4)}
 			}
 			c.Ops = append(c.Ops, op)
 			cur, curJob = next, nextJob
